@@ -2,7 +2,7 @@ package main
 
 func init() {
 	register("C01", "Decided: register tables, no-operand opcode table, condition codes (T-rules); not decided: form selection on concrete operands.",
-		ruleT1, ruleT2, ruleT3)
+		ruleT1, ruleT2, ruleT3, ruleT5)
 	register("C06", "", ruleT7, ruleT10Expr)
 	register("C12", "", ruleT10Layout)
 	register("C07", "", ruleT11, ruleE7, ruleP2, ruleP2g, ruleP2b, ruleP2c)
@@ -24,4 +24,8 @@ func init() {
 
 func init() {
 	register("C05", "", ruleP7, ruleF2, ruleN5, ruleP2b)
+}
+
+func init() {
+	register("C03", "", ruleP8, ruleS3, ruleF8size, ruleZ3, ruleP7, ruleF2, ruleN5, ruleP5)
 }
